@@ -309,6 +309,65 @@ Section CalculatePdfRnd.
   Qed.
 End CalculatePdfRnd.
 
+(* ---------- hypotheses on the data only: terms in [0, 1] (they are exp(-d/c) with d >= 0, c > 0) ---------- *)
+
+Theorem rnd_minmax_unit_terms (rnd : R -> R) fmax n k gdens e c mn mx dc :
+  rounding rnd -> rnd 1 = 1 ->
+  (forall z, (0 <= z <= Z.of_nat k)%Z -> rnd (IZR z) = IZR z) ->
+  (1 <= n)%nat -> 1 <= fmax ->
+  (forall i l, (i < n)%nat -> (l < k)%nat -> 0 <= e i l <= 1) ->
+  calculate_pdf (RndOps rnd) fmax 1000 n k gdens e = (c, mn, mx, dc) ->
+  (exists i, (i < n)%nat /\ mn = pdf_value (RndOps rnd) k (e i)) /\
+  (exists i, (i < n)%nat /\ mx = pdf_value (RndOps rnd) k (e i)) /\
+  0 <= mn /\ mn <= mx /\ mx <= 1.
+Proof.
+  intros RND H1 HZ Hn Hf He Hcalc.
+  assert (Hp1 : forall i, (i < n)%nat -> pdfv rnd k (e i) <= 1).
+  { intros i Hi. apply pdfv_le_1; auto. intros l Hl. now apply He. }
+  assert (Hb : forall i, (i < n)%nat -> rnd (0 - fmax) <= pdfv rnd k (e i) <= fmax).
+  { apply rnd_bounds_of_nonneg; [exact RND|lra| |].
+    - intros i l Hi Hl. now apply He.
+    - intros i Hi. specialize (Hp1 i Hi). lra. }
+  destruct (rnd_min_attained rnd fmax n k gdens e c mn mx dc Hcalc Hn Hb) as (i1 & Hi1 & Emn).
+  destruct (rnd_max_attained rnd fmax n k gdens e c mn mx dc Hcalc Hn Hb) as (i2 & Hi2 & Emx).
+  split; [exists i1; split; [exact Hi1|exact Emn]|].
+  split; [exists i2; split; [exact Hi2|exact Emx]|].
+  split; [rewrite Emn; apply pdfv_nonneg; [exact RND|]; intros l Hl; now apply He|].
+  split; [exact (rnd_min_le_max rnd fmax n k gdens e c mn mx dc Hcalc Hn)|].
+  rewrite Emx. now apply Hp1.
+Qed.
+
+(* ---------- eliminate_maxima_height at [RndOps rnd] ---------- *)
+
+Theorem eliminate_rnd_spec (rnd : R -> R) (h : R) (dens cost : list R) :
+  (0 < h -> eliminate_maxima (RndOps rnd) h dens cost = map (fun d => Rmax (rnd (d - h)) 0) dens) /\
+  (h <= 0 -> eliminate_maxima (RndOps rnd) h dens cost = cost).
+Proof.
+  unfold eliminate_maxima. change (nltb (RndOps rnd)) with Rltb. change (nofZ (RndOps rnd) 0) with 0.
+  split; intro Hh.
+  - apply Rltb_true_iff in Hh. rewrite Hh. apply map_ext. intro d. cbv zeta.
+    change (nsub (RndOps rnd) d h) with (rnd (d - h)).
+    destruct (Rltb (rnd (d - h)) 0) eqn:E; [apply Rltb_true_iff in E | apply Rltb_false_iff in E].
+    + rewrite Rmax_right by lra. reflexivity.
+    + rewrite Rmax_left by lra. reflexivity.
+  - apply Rltb_false_iff in Hh. rewrite Hh. reflexivity.
+Qed.
+
+(* the new cost stays in [0, density] for a representable density; strictly below it exactly when
+   density - h is not rounded back up to density *)
+Theorem eliminate_rnd_bounds (rnd : R -> R) (h d : R) :
+  rounding rnd -> 0 < h -> 0 < d -> rnd d = d ->
+  0 <= Rmax (rnd (d - h)) 0 <= d /\ (Rmax (rnd (d - h)) 0 < d <-> rnd (d - h) <> d).
+Proof.
+  intros RND Hh Hd Hf.
+  assert (HL : rnd (d - h) <= d) by (rewrite <- Hf at 2; apply rnd_le; [exact RND|lra]).
+  split.
+  - split; [apply Rmax_r|apply Rmax_lub; lra].
+  - split; intro H.
+    + pose proof (Rmax_l (rnd (d - h)) 0). lra.
+    + apply Rmax_lub_lt; lra.
+Qed.
+
 (* ---------- everything about calculate_pdf at [RndOps rnd] in one statement ---------- *)
 
 Theorem calculate_pdf_rnd_summary (rnd : R -> R) fmax n k gdens e c mn mx dc :
